@@ -29,7 +29,9 @@ def knapsack_pricing(
 
     # Scale to integers for DP
     scale = 100
-    cap_int = int(capacity * scale + 0.5)
+    # Round the capacity down (sizes are rounded to nearest): rounding it up would admit patterns
+    # that do not fit, e.g. total size 8 in a roll of width 7.996
+    cap_int = int(capacity * scale + 1e-9)
     sizes_int = [max(1, int(sizes[i] * scale + 0.5)) for i in range(n)]
 
     # dp_val[w] = best value at weight w, dp_pat[w] = pattern achieving it
